@@ -132,14 +132,15 @@ class Scanner:
 
     def scan_grammar_doc_inner(self) -> StateFn | None:
         if self.peek() in (" ", "\t"):
+            # One space or tab after the marker is not part of the comment.
             self.next()
+            self.start = self.pos
 
-        if value := self.scan_until(RE_NEWLINE):
-            self.emit(TokenKind.COMMENT_TEXT, value)
-        else:
-            # Empty comment text
-            self.emit(TokenKind.COMMENT_TEXT, "")
+        # The comment runs to the end of the line, or the end of the grammar.
+        if self.scan_until(RE_NEWLINE) is None:
+            self.pos = len(self.grammar)
 
+        self.emit(TokenKind.COMMENT_TEXT, self.grammar[self.start : self.pos])
         return self.scan_grammar
 
     def scan_grammar_rule(self) -> StateFn | None:  # noqa: PLR0911
@@ -188,14 +189,15 @@ class Scanner:
 
     def scan_rule_doc_inner(self) -> StateFn | None:
         if self.peek() in (" ", "\t"):
+            # One space or tab after the marker is not part of the comment.
             self.next()
+            self.start = self.pos
 
-        if value := self.scan_until(RE_NEWLINE):
-            self.emit(TokenKind.COMMENT_TEXT, value)
-        else:
-            # Empty comment text
-            self.emit(TokenKind.COMMENT_TEXT, "")
+        # The comment runs to the end of the line, or the end of the grammar.
+        if self.scan_until(RE_NEWLINE) is None:
+            self.pos = len(self.grammar)
 
+        self.emit(TokenKind.COMMENT_TEXT, self.grammar[self.start : self.pos])
         return self.scan_grammar_rule
 
     def accept_expression(self) -> None:
